@@ -154,6 +154,25 @@ def make_stmt(spec, idx):
     return _STMT[key]
 
 
+def infer_dag(presentation):
+    """the same presentation through the DAGCode entry point infer_kinds() (phase dict in presentation order)"""
+    from dagrt.data import infer_kinds
+    from dagrt.language import DAGCode, ExecutionPhase
+    dag = DAGCode({p: ExecutionPhase(p, p, list(s)) for p, s in presentation}, presentation[0][0])
+    buf = io.StringIO()
+    try:
+        with contextlib.redirect_stdout(buf):
+            with kernel.time_limit(120):
+                tbl = infer_kinds(dag, registry())
+    except kernel.Budget:
+        return ["hang"]
+    except Exception as e:
+        return ["exc", type(e).__name__]
+    g = sorted((k, kname(v)) for k, v in tbl.global_table.items())
+    per = sorted((p, sorted((k, kname(v)) for k, v in t.items())) for p, t in tbl.per_phase_table.items() if t)
+    return ["table", g, per]
+
+
 def infer(presentation, one_shot=False):
     """presentation: list of (phase name, [statements]) in order.  Returns canonical outcome.
     one_shot: each phase is handed over as an iterator that can be consumed once (as the Fortran generator does)."""
@@ -200,6 +219,15 @@ def check_program(prog, acc=None):
         n += 1
         if acc is not None:
             acc.evaluations += 1
+        if len(pres) == 2 and n <= 2:
+            # both phase orders also through the DAGCode entry point
+            outd = infer_dag(pres)
+            if acc is not None:
+                acc.evaluations += 1
+            if outd != out and not (outd[0] == "exc" and out[0] == "exc"):
+                return ("infer_kinds-entry:" + classify(out, outd), describe(prog, (out, pres), (outd, pres)).replace(
+                    "but presentation", "but infer_kinds() on a DAGCode holding the same phases, presentation")), \
+                    (base[0] if base else out), n
         if base is None:
             base = (out, pres)
             out1 = infer(pres, one_shot=True)
@@ -271,7 +299,7 @@ def bounds(tier):
             "k=4": "all 4-subsets of a core menu with %d right-hand sides" % (4 if tier == "quick" else 7),
             "k=5": "all 5-subsets of the 4-rhs core menu (thorough only)",
             "presentations": "all permutations per phase x both phase orders; the first presentation also with every phase "
-            "given as a one-shot iterator",
+            "given as a one-shot iterator; both phase orders also through infer_kinds(DAGCode)",
             "hash_seeds": [0, 1, 2] if tier == "quick" else [0, 1, 2, 3, 4, 5, 6]}
 
 
